@@ -1448,6 +1448,8 @@ class Interp:
             # did not change are detached, so that the copy stays accurate whatever happens next
             key = (self.U.root(o.kind), o.uid)
             for snap in self.model.stack:
+                if self.pinned:
+                    break
                 if snap["rows"].get(key) != self.model.rows.get(key) or any(o.uid in pr for pr in snap["pairs"]):
                     return False
                 if any(r.get("parent") == o.uid or r.get("fav") == o.uid for r in snap["rows"].values()):
